@@ -126,4 +126,53 @@ theorem ofDigits_render (base : Nat) (hb0 : 0 < base) (hb : base ≤ 16) (n : Na
   rw [ofDigits_map base hb _ (fun d hd => digitsK_lt base hb0 10 n d (stripZeros_mem _ d hd)),
       valueOf_stripZeros, valueOf_digitsK base hb0]
 
+theorem digitVal_lt (b : Nat) (c : Char) (d : Nat) (h : digitVal? b c = some d) : d < b := by
+  unfold digitVal? at h
+  simp only at h
+  split at h
+  · split at h
+    · cases h; assumption
+    · cases h
+  · cases h
+
+theorem ofDigits_lt (b : Nat) (s : List Char) (acc n : Nat) (h : ofDigits? b s acc = some n) :
+    n < (acc + 1) * b ^ s.length := by
+  induction s generalizing acc with
+  | nil => simp only [ofDigits?, Option.some.injEq] at h; subst h; simp
+  | cons c cs ih =>
+    simp only [ofDigits?] at h
+    cases hc : digitVal? b c with
+    | none => rw [hc] at h; cases h
+    | some d =>
+      rw [hc] at h
+      have hd := digitVal_lt b c d hc
+      have := ih _ h
+      have hle : acc * b + d + 1 ≤ (acc + 1) * b := by
+        rw [Nat.add_mul]; omega
+      calc n < (acc * b + d + 1) * b ^ cs.length := this
+        _ ≤ (acc + 1) * b * b ^ cs.length := Nat.mul_le_mul_right _ hle
+        _ = (acc + 1) * b ^ (c :: cs).length := by
+            rw [List.length_cons, Nat.pow_succ, Nat.mul_assoc, Nat.mul_comm b]
+
+theorem ofDigits_legal (b : Nat) (s : List Char) (acc : Nat) (h : ∀ c ∈ s, digitVal? b c ≠ none) :
+    ∃ n, ofDigits? b s acc = some n := by
+  induction s generalizing acc with
+  | nil => exact ⟨acc, rfl⟩
+  | cons c cs ih =>
+    simp only [ofDigits?]
+    cases hc : digitVal? b c with
+    | none => exact absurd hc (h c (by simp))
+    | some d => exact ih _ (fun x hx => h x (by simp [hx]))
+
+theorem ofDigits_zeros (b : Nat) (hb0 : 0 < b) (k : Nat) (s : List Char) :
+    ofDigits? b (List.replicate k '0' ++ s) 0 = ofDigits? b s 0 := by
+  induction k with
+  | zero => rfl
+  | succ k ih =>
+    have h0 : digitVal? b '0' = some 0 := by
+      unfold digitVal?; simp [hb0]
+    simp only [List.replicate_succ, List.cons_append, ofDigits?, h0]
+    simpa using ih
+
+
 end Pycel.Radix
